@@ -3,7 +3,7 @@
 usage: tools/keep_seed.py PID k "<needs>" "<caught by (checks/rules)>" "<initially: caught|missed + what was strengthened>" """
 import json, os, shutil, subprocess, sys
 pid, k, needs, caught, initially = sys.argv[1:6]
-src = "/tmp/seed/%s/_seed/%s" % (pid, k)
+src = "%s/%s/_seed/%s" % (os.environ.get("SEEDBASE", "/tmp/seed"), pid, k)
 dst = "/verif/seeded/%s-%s" % (pid, k)
 os.makedirs(dst, exist_ok=True)
 for f in ("patch.diff", "demo.py", "notes.md"):
